@@ -4,7 +4,7 @@
    canonical serialisation the Go harness prints for the implementation. *)
 From Coq Require Import NArith ZArith List Bool.
 From StunV Require Import Base.ListAux Base.Outcome Base.Bytes Base.Slice Model.MsgType Model.Message Model.Rfc Model.RfcAttrs
-  Model.Crc32 Model.Sha1 Model.Sha256 Model.Md5 Model.Hmac Model.Attrs Model.Ops Model.Agent Model.Client Model.Uri.
+  Model.Crc32 Model.Sha1 Model.Sha256 Model.Md5 Model.Hmac Model.Attrs Model.Ops Model.Agent Model.AgentConc Model.Client Model.Uri.
 Import ListNotations.
 Open Scope N_scope.
 
@@ -349,6 +349,50 @@ Definition run_c13 (sub : N) (args : list (list N)) : list N :=
   | _ => bad_case
   end.
 
+(* C14: a recorded concurrent history of the Agent and a proposed linearization.
+   1401 <order: call indices> <call> <call> ...   call = [inv; res; |op|; op...; observed ret; observed
+   number of events; observed events...] (op as in 1301).  Result: is the order a permutation of the calls;
+   does it respect real time (no call placed later returned before a call placed earlier was invoked);
+   then, for the calls in that order, what the sequential model returns and emits (as in 1301).  The
+   implementation side prints 1 1 and what it observed, so equality of the two lines is [lin_check]. *)
+Definition parse_ocall (f : list N) : option (N * N * aop) :=
+  match f with
+  | inv :: res :: nop :: rest =>
+    match parse_aop (take nop rest) with
+    | Some o => Some (inv, res, o)
+    | None => None
+    end
+  | _ => None
+  end.
+Fixpoint parse_ocalls (fs : list (list N)) : option (list (N * N * aop)) :=
+  match fs with
+  | [] => Some []
+  | f :: r => match parse_ocall f, parse_ocalls r with
+              | Some c, Some cs => Some (c :: cs)
+              | _, _ => None
+              end
+  end.
+Fixpoint run_seq_obs (s : agent) (ops : list aop) : list N :=
+  match ops with
+  | [] => []
+  | o :: r =>
+    let '(s', (ret, evs)) := a_step s o in
+    [aret_code ret; lenN evs] ++ flat_map (fun e => [ev_h e; ev_id e; ev_kind e; ev_err e]) (sort_evs evs)
+    ++ run_seq_obs s' r
+  end.
+Definition run_c14 (sub : N) (args : list (list N)) : list N :=
+  match sub, args with
+  | 1, w :: cfs =>
+    match parse_ocalls cfs with
+    | None => bad_case
+    | Some cs =>
+      let sel := flat_map (fun i => match nth_error cs (N.to_nat i) with Some c => [c] | None => [] end) w in
+      let ocs := map (fun '(inv, res, o) => mkOcall inv res o ROk []) sel in
+      [b2n (is_perm_of_range w (lenN cs)); b2n (realtime_ok ocs)] ++ run_seq_obs (new_agent 1) (map (fun '(_, _, o) => o) sel)
+    end
+  | _, _ => bad_case
+  end.
+
 (* C16 / C17: URIs.
    1601 <string>: ParseURI — [0; scheme; port; proto; |host|; host...] or [1] (error); 3 = the model ran
         out of fuel (pinned recursive version only)
@@ -449,6 +493,7 @@ Definition run (cmd : N) (args : list (list N)) : list N :=
   | 7 => run_c07 (cmd mod 100) args
   | 10 => run_c10 (cmd mod 100) args
   | 13 => run_c13 (cmd mod 100) args
+  | 14 => run_c14 (cmd mod 100) args
   | 16 => run_c16 (cmd mod 100) args
   | 17 => run_c17 (cmd mod 100) args
   | 18 => run_c18 (cmd mod 100) args
